@@ -78,201 +78,6 @@ Proof.
   cbn [fold_right]. destruct H as [->|H]; [apply in_insert_le_self|apply in_insert_le, IH; exact H].
 Qed.
 
-(* the two ways a revision gets as far as naming its file: it writes it, or refuses because it exists *)
-Lemma revision_named : forall P m f env o,
-  cmd_revision P m f env = Ok o ->
-  (exists file p, o = RevWrote file p) \/ o = RevRefusedExists ->
-  exists plans name,
-    load_migrations P = Ok plans
-    /\ existsb (fun q => N.leb (next_version plans) (p_version q)) plans = false
-    /\ name = migration_filename (next_version plans) (Some m) (cf_migration_format (pj_config P)) (cf_pattern (pj_config P))
-    /\ (o = RevRefusedExists -> In name (file_names P))
-    /\ (forall file p, o = RevWrote file p ->
-          file = name /\ p_version p = next_version plans /\ p_comment p = Some m /\ ~ In name (file_names P)).
-Proof.
-  intros P m f env o. unfold cmd_revision.
-  destruct (load_models P) as [models|e]; [|intros H; discriminate H].
-  destruct (load_migrations P) as [plans|e]; [|intros H; discriminate H].
-  unfold plan_next.
-  destruct (replay plans) as [baseline|e]; [|intros H; discriminate H].
-  destruct (diff_actions baseline models) as [acts|e]; [|intros H; discriminate H].
-  cbn [p_actions p_version p_comment].
-  assert (Hleaf : forall acts' : list action,
-    (if mem_str (migration_filename (next_version plans) (Some m) (cf_migration_format (pj_config P)) (cf_pattern (pj_config P))) (file_names P)
-     then Ok RevRefusedExists
-     else Ok (RevWrote (migration_filename (next_version plans) (Some m) (cf_migration_format (pj_config P)) (cf_pattern (pj_config P)))
-                (mkPlan (re_uuid env) (Some m) (Some (re_now env)) (next_version plans) acts'))) = @Ok rev_out cli_error o ->
-    existsb (fun q => N.leb (next_version plans) (p_version q)) plans = false ->
-    exists plans0 name,
-      @Ok (list plan) cli_error plans = Ok plans0
-      /\ existsb (fun q => N.leb (next_version plans0) (p_version q)) plans0 = false
-      /\ name = migration_filename (next_version plans0) (Some m) (cf_migration_format (pj_config P)) (cf_pattern (pj_config P))
-      /\ (o = RevRefusedExists -> In name (file_names P))
-      /\ (forall file p, o = RevWrote file p ->
-            file = name /\ p_version p = next_version plans0 /\ p_comment p = Some m /\ ~ In name (file_names P))).
-  { intros acts' H Hv. exists plans. eexists. split; [reflexivity|]. split; [exact Hv|]. split; [reflexivity|].
-    destruct (mem_str _ (file_names P)) eqn:Hm; inversion H; subst o.
-    - split; [intros _|intros file p Hc; discriminate Hc].
-      unfold mem_str in Hm. apply existsb_exists in Hm. destruct Hm as [x [Hin He]]. apply String.eqb_eq in He. subst x. exact Hin.
-    - split; [intros Hc; discriminate Hc|]. intros file p Hc. inversion Hc; subst. cbn [p_version p_comment].
-      repeat split. intros Hin. unfold mem_str in Hm.
-      assert (Ht : existsb (String.eqb (migration_filename (next_version plans) (Some m) (cf_migration_format (pj_config P)) (cf_pattern (pj_config P)))) (file_names P) = true).
-      { apply existsb_exists. eexists. split; [exact Hin|apply String.eqb_refl]. }
-      rewrite Ht in Hm. discriminate Hm. }
-  destruct (is_nil acts); [intros H Hd; inversion H; subst; destruct Hd as [[x [y Hc]]|Hc]; discriminate Hc|].
-  destruct (existsb (fun q => N.leb (next_version plans) (p_version q)) plans) eqn:Hv;
-    [intros H Hd; inversion H; subst; destruct Hd as [[x [y Hc]]|Hc]; discriminate Hc|].
-  destruct (refuses acts); [intros H Hd; inversion H; subst; destruct Hd as [[x [y Hc]]|Hc]; discriminate Hc|].
-  set (fv := parse_fill_with_args f). set (a0 := map (apply_fill fv) acts).
-  destruct (collect_fills a0 baseline) as [|mi mr].
-  - destruct (find_missing_enum_fill_with (mkPlan "" None None 0 a0) baseline) as [|ei er].
-    + intros H _. exact (Hleaf _ H eq_refl).
-    + destruct (re_tty env); [|intros H Hd; inversion H; subst; destruct Hd as [[x [y Hc]]|Hc]; discriminate Hc].
-      intros H _. exact (Hleaf _ H eq_refl).
-  - destruct (re_tty env); [|intros H Hd; inversion H; subst; destruct Hd as [[x [y Hc]]|Hc]; discriminate Hc].
-    set (a1 := map (apply_fill (fv ++ mi :: mr)) a0).
-    destruct (find_missing_enum_fill_with (mkPlan "" None None 0 a1) baseline) as [|ei er]; intros H _; exact (Hleaf _ H eq_refl).
-Qed.
-
-Lemma revision_wrote : forall P m f env file p,
-  cmd_revision P m f env = Ok (RevWrote file p) ->
-  exists plans, load_migrations P = Ok plans
-    /\ existsb (fun q => N.leb (next_version plans) (p_version q)) plans = false
-    /\ p_version p = next_version plans
-    /\ p_comment p = Some m
-    /\ file = migration_filename (p_version p) (Some m) (cf_migration_format (pj_config P)) (cf_pattern (pj_config P))
-    /\ ~ In file (file_names P).
-Proof.
-  intros P m f env file p H.
-  destruct (revision_named _ _ _ _ _ H (or_introl (ex_intro _ file (ex_intro _ p eq_refl)))) as [plans [name [Hl [Hv [Hn [_ Hw]]]]]].
-  destruct (Hw file p eq_refl) as [Hf [Hpv [Hc Hnot]]].
-  exists plans. subst name. rewrite Hpv. subst file. auto 10.
-Qed.
-
-Lemma write_file_fresh : forall name p fs,
-  ~ In name (map fst fs) -> write_file name p fs = fs ++ [(name, p)].
-Proof.
-  induction fs as [|[n q] r IH]; intros Hn; [reflexivity|].
-  cbn [write_file]. cbn [map fst In] in Hn.
-  destruct (String.eqb n name) eqn:He.
-  - apply String.eqb_eq in He. exfalso. apply Hn. left. exact He.
-  - cbn [app]. rewrite IH; [reflexivity|]. intros Hin. apply Hn. right. exact Hin.
-Qed.
-
-(* all stored versions are below the new one *)
-Lemma new_version_above : forall P plans,
-  load_migrations P = Ok plans ->
-  existsb (fun q => N.leb (next_version plans) (p_version q)) plans = false ->
-  (forall v, In v (versions P) -> v < next_version plans) /\ next_version plans = max_version P + 1.
-Proof.
-  intros P plans Hl Hv.
-  pose proof (next_version_loaded _ _ Hl) as Hnv.
-  assert (Hall : forall v, In v (versions P) -> v < next_version plans).
-  { intros v Hin. unfold versions in Hin. apply in_map_iff in Hin. destruct Hin as [[n q] [<- Hin]]. cbn [snd].
-    unfold load_migrations in Hl. destruct (validate_files (pj_migrations P)); [|discriminate Hl]. inversion Hl; subst plans.
-    assert (Hq : In q (sort_plans (map snd (pj_migrations P)))).
-    { apply in_sort_plans. apply in_map_iff. exists (n, q). split; [reflexivity|exact Hin]. }
-    destruct (N.ltb (p_version q) (next_version (sort_plans (map snd (pj_migrations P))))) eqn:E; [apply N.ltb_lt; exact E|].
-    exfalso. apply N.ltb_ge in E.
-    assert (Ht : existsb (fun q0 => N.leb (next_version (sort_plans (map snd (pj_migrations P)))) (p_version q0))
-                   (sort_plans (map snd (pj_migrations P))) = true).
-    { apply existsb_exists. exists q. split; [exact Hq|apply N.leb_le; exact E]. }
-    rewrite Ht in Hv. discriminate Hv. }
-  split; [exact Hall|].
-  rewrite Hnv in *. unfold max_version in *.
-  destruct (fold_max_in_or_acc (versions P) 0) as [H0|Hin].
-  - rewrite H0. unfold u32_max. lia.
-  - specialize (Hall _ Hin). unfold u32_max in *. lia.
-Qed.
-
-(* since fix fcb5089, for EVERY filename pattern and every stored history: what revision writes is a new file
-   with a version greater than all stored ones, appended to an otherwise untouched history *)
-Theorem revision_append_only : forall P m f env file p,
-  cmd_revision P m f env = Ok (RevWrote file p) ->
-  p_version p = max_version P + 1
-  /\ (forall v, In v (versions P) -> v < p_version p)
-  /\ ~ In file (file_names P)
-  /\ pj_migrations (step_revision P m f env) = pj_migrations P ++ [(file, p)].
-Proof.
-  intros P m f env file p H.
-  destruct (revision_wrote _ _ _ _ _ _ H) as [plans [Hl [Hv [Hpv [_ [_ Hnot]]]]]].
-  destruct (new_version_above _ _ Hl Hv) as [Hall Hnv].
-  rewrite Hpv. split; [exact Hnv|]. split; [exact Hall|]. split; [exact Hnot|].
-  unfold step_revision. rewrite H. cbn [project_after pj_migrations]. apply write_file_fresh. exact Hnot.
-Qed.
-
-(* every other outcome leaves the project as it is *)
-Theorem revision_never_overwrites : forall P m f env,
-  (forall n q, In (n, q) (pj_migrations P) -> In (n, q) (pj_migrations (step_revision P m f env)))
-  /\ (forall o, cmd_revision P m f env = Ok o -> (forall file p, o <> RevWrote file p) -> step_revision P m f env = P)
-  /\ (forall e, cmd_revision P m f env = Err e -> step_revision P m f env = P).
-Proof.
-  intros P m f env. unfold step_revision.
-  destruct (cmd_revision P m f env) as [o|e] eqn:H.
-  - split.
-    + destruct o; cbn [project_after]; try (intros n q Hin; exact Hin).
-      intros n q Hin. cbn [pj_migrations].
-      destruct (revision_append_only _ _ _ _ _ _ H) as [_ [_ [_ Happ]]].
-      unfold step_revision in Happ. rewrite H in Happ. cbn [project_after pj_migrations] in Happ.
-      rewrite Happ. apply in_or_app. left. exact Hin.
-    + split; [|intros e He; discriminate He].
-      intros o' Ho Hne. inversion Ho; subst o'. destruct o; try reflexivity. exfalso. exact (Hne _ _ eq_refl).
-  - split; [intros n q Hin; exact Hin|]. split; [intros o Ho; discriminate Ho|reflexivity].
-Qed.
-
-(* ------------------------------------------------------------------ default pattern: the file-exists refusal never fires *)
-(* every stored file carries the name the tool gives to its (version, comment) under the default pattern *)
-Definition tool_named (P : project) : Prop :=
-  forall n q, In (n, q) (pj_migrations P) ->
-    exists fmt, n = migration_filename (p_version q) (p_comment q) fmt default_pattern.
-
-Theorem default_pattern_never_refused : forall P m f env,
-  cf_pattern (pj_config P) = default_pattern ->
-  tool_named P ->
-  cmd_revision P m f env <> Ok RevRefusedExists.
-Proof.
-  intros P m f env Hpat Hnamed H.
-  destruct (revision_named _ _ _ _ _ H (or_intror eq_refl)) as [plans [name [Hl [Hv [Hn [Hex _]]]]]].
-  specialize (Hex eq_refl).
-  destruct (new_version_above _ _ Hl Hv) as [Hall _].
-  unfold file_names in Hex. apply in_map_iff in Hex. destruct Hex as [[n q] [Hnq Hin]]. cbn [fst] in Hnq. subst n.
-  destruct (Hnamed _ _ Hin) as [fmt Hq].
-  assert (Hvq : In (p_version q) (versions P)).
-  { unfold versions. apply in_map_iff. exists (name, q). split; [reflexivity|exact Hin]. }
-  specialize (Hall _ Hvq).
-  rewrite Hpat in Hn. rewrite Hn in Hq.
-  apply filename_fresh in Hq; [exact Hq|]. lia.
-Qed.
-
-(* ------------------------------------------------------------------ the former overwrite witnesses are refused now *)
-Definition cfg_pattern (pat : string) : config := mkConfig "models" "migrations" FJson FJson pat "src/models" "".
-Definition kcol (n : string) : column_def := mkCol n (TSimple Integer) false None None (Some (PKBool true)) None None None.
-Definition ncol (n : string) : column_def := mkCol n (TSimple Text) true None None None None None None.
-Definition env0 : rev_env := mkEnv false "uuid" "now".
-
-(* a pattern without a version placeholder and the same comment twice *)
-Definition P_same_name : project :=
-  mkProject (cfg_pattern "%m") [("user.json", mkTable "user" None [kcol "id"; ncol "email"] [])]
-            [("same.vespertide.json", mkPlan "id-1" (Some "same") None 1 [CreateTable "user" [kcol "id"] []])].
-
-Theorem filename_pattern_refused :
-  cmd_revision P_same_name "same" [] env0 = Ok RevRefusedExists
-  /\ step_revision P_same_name "same" [] env0 = P_same_name
-  /\ exists p, cmd_revision P_same_name "other" [] env0 = Ok (RevWrote "other.vespertide.json" p) /\ p_version p = 2.
-Proof. split; [vm_compute; reflexivity|]. split; [vm_compute; reflexivity|]. eexists. split; vm_compute; reflexivity. Qed.
-
-(* the u32 corner: at version 4294967295 there is no greater version to hand out *)
-Definition P_saturated : project :=
-  mkProject default_config [("user.json", mkTable "user" None [kcol "id"; ncol "email"] [])]
-            [("4294967295_big.vespertide.json", mkPlan "id-1" (Some "big") None 4294967295 [CreateTable "user" [kcol "id"] []])].
-
-Theorem revision_saturation_refused :
-  max_version P_saturated = u32_max
-  /\ cmd_revision P_saturated "big" [] env0 = Ok RevRefusedVersion
-  /\ cmd_revision P_saturated "other" [] env0 = Ok RevRefusedVersion
-  /\ step_revision P_saturated "big" [] env0 = P_saturated.
-Proof. repeat split; vm_compute; reflexivity. Qed.
-
 (* ------------------------------------------------------------------ what revision writes can be loaded again *)
 (* an action validate_migration_plan rejects with MissingFillWith *)
 Definition unfilled (a : action) : bool :=
@@ -457,66 +262,262 @@ Proof.
   - cbn [default_as_fill]. rewrite Hl, Hd. reflexivity.
 Qed.
 
-Lemma revision_wrote_filled : forall P m f env file p,
-  cmd_revision P m f env = Ok (RevWrote file p) -> forall a, In a (p_actions p) -> unfilled a = false.
+(* --- every run that gets past the prompts ends in revision_finish, with nothing left unfilled --- *)
+Definition finish_kind (o : rev_out) : Prop :=
+  (exists file p, o = RevWrote file p) \/ o = RevRefusedExists \/ exists e, o = RevRefusedInvalid e.
+
+Lemma revision_reaches_finish : forall P m f env o,
+  cmd_revision P m f env = Ok o -> finish_kind o ->
+  exists plans baseline a2,
+    load_migrations P = Ok plans
+    /\ existsb (fun q => N.leb (next_version plans) (p_version q)) plans = false
+    /\ o = revision_finish P m env (next_version plans) baseline a2
+    /\ forall a, In a (map (default_as_fill baseline) a2) -> unfilled a = false.
 Proof.
-  intros P m f env file p. unfold cmd_revision.
+  intros P m f env o. unfold cmd_revision.
+  assert (Hnk : forall o', (o' = RevNothing \/ o' = RevRefusedVersion \/ o' = RevRefused \/ o' = RevNeedsTty) -> ~ finish_kind o').
+  { intros o' Hk [[x [y Hc]]|[Hc|[x Hc]]]; destruct Hk as [Hk|[Hk|[Hk|Hk]]]; subst o'; discriminate Hc. }
   destruct (load_models P) as [models|e]; [|intros H; discriminate H].
   destruct (load_migrations P) as [plans|e]; [|intros H; discriminate H].
   unfold plan_next.
   destruct (replay plans) as [baseline|e]; [|intros H; discriminate H].
   destruct (diff_actions baseline models) as [acts|e]; [|intros H; discriminate H].
   cbn [p_actions p_version].
-  destruct (is_nil acts); [intros H; discriminate H|].
-  destruct (existsb (fun q => N.leb (next_version plans) (p_version q)) plans); [intros H; discriminate H|].
-  destruct (refuses acts); [intros H; discriminate H|].
+  destruct (is_nil acts); [intros H Hk; inversion H; subst; exfalso; apply (Hnk RevNothing); auto|].
+  destruct (existsb (fun q => N.leb (next_version plans) (p_version q)) plans) eqn:Hv;
+    [intros H Hk; inversion H; subst; exfalso; apply (Hnk RevRefusedVersion); auto|].
+  destruct (refuses acts); [intros H Hk; inversion H; subst; exfalso; apply (Hnk RevRefused); auto|].
   set (fv := parse_fill_with_args f). set (a0 := map (apply_fill fv) acts).
   assert (Hfinal : forall a1 a2, (forall x, In x a1 -> ok_or_defaulted baseline x) ->
                                  (forall x, In x a2 -> In x a1 \/ unfilled x = false) ->
                                  forall a, In a (map (default_as_fill baseline) a2) -> unfilled a = false).
   { intros a1 a2 H1 H2 a Hin. apply in_map_iff in Hin. destruct Hin as [x [<- Hx]].
     apply default_fills. destruct (H2 x Hx) as [Hi|Hu]; [apply H1; exact Hi|left; exact Hu]. }
+  assert (Hleaf : forall a1 a2, (forall x, In x a1 -> ok_or_defaulted baseline x) ->
+                                (forall x, In x a2 -> In x a1 \/ unfilled x = false) ->
+            @Ok rev_out cli_error (revision_finish P m env (next_version plans) baseline a2) = Ok o ->
+            exists plans0 baseline0 a20,
+              @Ok (list plan) cli_error plans = Ok plans0
+              /\ existsb (fun q => N.leb (next_version plans0) (p_version q)) plans0 = false
+              /\ o = revision_finish P m env (next_version plans0) baseline0 a20
+              /\ forall a, In a (map (default_as_fill baseline0) a20) -> unfilled a = false).
+  { intros a1 a2 H1 H2 H. inversion H. exists plans, baseline, a2.
+    split; [reflexivity|]. split; [exact Hv|]. split; [reflexivity|]. exact (Hfinal a1 a2 H1 H2). }
   destruct (collect_fills a0 baseline) as [|mi mr] eqn:Hmiss.
   - assert (H1 : forall x, In x a0 -> ok_or_defaulted baseline x) by (intros x Hx; exact (no_prompt_ok a0 baseline x Hmiss Hx)).
     destruct (find_missing_enum_fill_with (mkPlan "" None None 0 a0) baseline) as [|ei er].
-    + match goal with |- context [mem_str ?n ?l] => destruct (mem_str n l) end; [intros H; discriminate H|].
-      intros H a Hin. inversion H; subst. cbn [p_actions] in Hin.
-      exact (Hfinal a0 a0 H1 (fun x Hx => or_introl Hx) a Hin).
-    + destruct (re_tty env); [|intros H; discriminate H].
-      match goal with |- context [mem_str ?n ?l] => destruct (mem_str n l) end; [intros H; discriminate H|].
-      intros H a Hin. inversion H; subst. cbn [p_actions] in Hin.
-      exact (Hfinal a0 _ H1 (fun x Hx => enum_fills_keep _ _ _ x Hx) a Hin).
-  - destruct (re_tty env); [|intros H; discriminate H].
+    + intros H _. exact (Hleaf a0 a0 H1 (fun x Hx => or_introl Hx) H).
+    + destruct (re_tty env); [|intros H Hk; inversion H; subst; exfalso; apply (Hnk RevNeedsTty); auto].
+      intros H _. exact (Hleaf a0 _ H1 (fun x Hx => enum_fills_keep _ _ _ x Hx) H).
+  - destruct (re_tty env); [|intros H Hk; inversion H; subst; exfalso; apply (Hnk RevNeedsTty); auto].
     set (a1 := map (apply_fill (fv ++ mi :: mr)) a0).
     assert (H1 : forall x, In x a1 -> ok_or_defaulted baseline x).
     { intros x Hx. unfold a1 in Hx. rewrite <- Hmiss in Hx. exact (prompted_ok a0 baseline fv x Hx). }
-    destruct (find_missing_enum_fill_with (mkPlan "" None None 0 a1) baseline) as [|ei er].
-    + match goal with |- context [mem_str ?n ?l] => destruct (mem_str n l) end; [intros H; discriminate H|].
-      intros H a Hin. inversion H; subst. cbn [p_actions] in Hin.
-      exact (Hfinal a1 a1 H1 (fun x Hx => or_introl Hx) a Hin).
-    + match goal with |- context [mem_str ?n ?l] => destruct (mem_str n l) end; [intros H; discriminate H|].
-      intros H a Hin. inversion H; subst. cbn [p_actions] in Hin.
-      exact (Hfinal a1 _ H1 (fun x Hx => enum_fills_keep _ _ _ x Hx) a Hin).
+    destruct (find_missing_enum_fill_with (mkPlan "" None None 0 a1) baseline) as [|ei er]; intros H _.
+    + exact (Hleaf a1 a1 H1 (fun x Hx => or_introl Hx) H).
+    + exact (Hleaf a1 _ H1 (fun x Hx => enum_fills_keep _ _ _ x Hx) H).
 Qed.
 
-(* since fix 446c8b4: what revision writes never lacks a fill value; the loader accepts it, except for an enum value
-   it does not check (a --fill-with value for a new enum column, or an enum without values) *)
-Theorem revision_output_loadable : forall P m f env file p,
+Lemma mem_str_in : forall x l, mem_str x l = true <-> In x l.
+Proof.
+  intros x l. unfold mem_str. rewrite existsb_exists. split.
+  - intros [y [Hin He]]. apply String.eqb_eq in He. subst y. exact Hin.
+  - intros Hin. exists x. split; [exact Hin|apply String.eqb_refl].
+Qed.
+
+(* the two ways a revision gets as far as naming its file: it writes it, or refuses because it exists *)
+Lemma revision_named : forall P m f env o,
+  cmd_revision P m f env = Ok o ->
+  (exists file p, o = RevWrote file p) \/ o = RevRefusedExists ->
+  exists plans name,
+    load_migrations P = Ok plans
+    /\ existsb (fun q => N.leb (next_version plans) (p_version q)) plans = false
+    /\ name = migration_filename (next_version plans) (Some m) (cf_migration_format (pj_config P)) (cf_pattern (pj_config P))
+    /\ (o = RevRefusedExists -> In name (file_names P))
+    /\ (forall file p, o = RevWrote file p ->
+          file = name /\ p_version p = next_version plans /\ p_comment p = Some m /\ ~ In name (file_names P)
+          /\ validate_migration_plan p = Ok tt /\ forall a, In a (p_actions p) -> unfilled a = false).
+Proof.
+  intros P m f env o H Hk.
+  assert (Hfk : finish_kind o) by (destruct Hk as [Hk|Hk]; [left; exact Hk|right; left; exact Hk]).
+  destruct (revision_reaches_finish _ _ _ _ _ H Hfk) as [plans [baseline [a2 [Hl [Hv [Ho Hu]]]]]].
+  exists plans. eexists. split; [exact Hl|]. split; [exact Hv|]. split; [reflexivity|].
+  unfold revision_finish in Ho.
+  destruct (validate_migration_plan _) as [[]|e] eqn:Hval.
+  - destruct (mem_str _ (file_names P)) eqn:Hm.
+    + subst o. split; [intros _; apply mem_str_in; exact Hm|intros file p Hc; discriminate Hc].
+    + subst o. split; [intros Hc; discriminate Hc|]. intros file p Hc. inversion Hc; subst. cbn [p_version p_comment p_actions].
+      split; [reflexivity|]. split; [reflexivity|]. split; [reflexivity|]. split.
+      * intros Hin. apply mem_str_in in Hin. rewrite Hin in Hm. discriminate Hm.
+      * split; [exact Hval|exact Hu].
+  - subst o. destruct Hk as [[x [y Hc]]|Hc]; discriminate Hc.
+Qed.
+
+Lemma revision_wrote : forall P m f env file p,
   cmd_revision P m f env = Ok (RevWrote file p) ->
-  (forall a, In a (p_actions p) -> unfilled a = false)
-  /\ (validate_migration_plan p = Ok tt
-      \/ ((exists a, In a (p_actions p) /\ enum_free a = false)
-          /\ exists t c x, validate_migration_plan p = Err (VInvalidEnumDefault t c x)))
-  /\ ((forall a, In a (p_actions p) -> enum_free a = true) -> validate_migration_plan p = Ok tt).
+  exists plans, load_migrations P = Ok plans
+    /\ existsb (fun q => N.leb (next_version plans) (p_version q)) plans = false
+    /\ p_version p = next_version plans
+    /\ p_comment p = Some m
+    /\ file = migration_filename (p_version p) (Some m) (cf_migration_format (pj_config P)) (cf_pattern (pj_config P))
+    /\ ~ In file (file_names P).
 Proof.
   intros P m f env file p H.
-  pose proof (revision_wrote_filled _ _ _ _ _ _ H) as Hu.
-  split; [exact Hu|].
-  unfold validate_migration_plan.
-  destruct (validate_plan_cases (p_actions p) Hu) as [Hok|[[a [Ha He]] Herr]].
-  - split; [left; exact Hok|intros _; exact Hok].
-  - split; [right; split; [exists a; split; assumption|exact Herr]|].
-    intros Hall. rewrite (Hall a Ha) in He. discriminate He.
+  destruct (revision_named _ _ _ _ _ H (or_introl (ex_intro _ file (ex_intro _ p eq_refl)))) as [plans [name [Hl [Hv [Hn [_ Hw]]]]]].
+  destruct (Hw file p eq_refl) as [Hf [Hpv [Hc [Hnot _]]]].
+  exists plans. subst name. rewrite Hpv. subst file. auto 10.
+Qed.
+
+Lemma write_file_fresh : forall name p fs,
+  ~ In name (map fst fs) -> write_file name p fs = fs ++ [(name, p)].
+Proof.
+  induction fs as [|[n q] r IH]; intros Hn; [reflexivity|].
+  cbn [write_file]. cbn [map fst In] in Hn.
+  destruct (String.eqb n name) eqn:He.
+  - apply String.eqb_eq in He. exfalso. apply Hn. left. exact He.
+  - cbn [app]. rewrite IH; [reflexivity|]. intros Hin. apply Hn. right. exact Hin.
+Qed.
+
+(* all stored versions are below the new one *)
+Lemma new_version_above : forall P plans,
+  load_migrations P = Ok plans ->
+  existsb (fun q => N.leb (next_version plans) (p_version q)) plans = false ->
+  (forall v, In v (versions P) -> v < next_version plans) /\ next_version plans = max_version P + 1.
+Proof.
+  intros P plans Hl Hv.
+  pose proof (next_version_loaded _ _ Hl) as Hnv.
+  assert (Hall : forall v, In v (versions P) -> v < next_version plans).
+  { intros v Hin. unfold versions in Hin. apply in_map_iff in Hin. destruct Hin as [[n q] [<- Hin]]. cbn [snd].
+    unfold load_migrations in Hl. destruct (validate_files (pj_migrations P)); [|discriminate Hl]. inversion Hl; subst plans.
+    assert (Hq : In q (sort_plans (map snd (pj_migrations P)))).
+    { apply in_sort_plans. apply in_map_iff. exists (n, q). split; [reflexivity|exact Hin]. }
+    destruct (N.ltb (p_version q) (next_version (sort_plans (map snd (pj_migrations P))))) eqn:E; [apply N.ltb_lt; exact E|].
+    exfalso. apply N.ltb_ge in E.
+    assert (Ht : existsb (fun q0 => N.leb (next_version (sort_plans (map snd (pj_migrations P)))) (p_version q0))
+                   (sort_plans (map snd (pj_migrations P))) = true).
+    { apply existsb_exists. exists q. split; [exact Hq|apply N.leb_le; exact E]. }
+    rewrite Ht in Hv. discriminate Hv. }
+  split; [exact Hall|].
+  rewrite Hnv in *. unfold max_version in *.
+  destruct (fold_max_in_or_acc (versions P) 0) as [H0|Hin].
+  - rewrite H0. unfold u32_max. lia.
+  - specialize (Hall _ Hin). unfold u32_max in *. lia.
+Qed.
+
+(* since fix fcb5089, for EVERY filename pattern and every stored history: what revision writes is a new file
+   with a version greater than all stored ones, appended to an otherwise untouched history *)
+Theorem revision_append_only : forall P m f env file p,
+  cmd_revision P m f env = Ok (RevWrote file p) ->
+  p_version p = max_version P + 1
+  /\ (forall v, In v (versions P) -> v < p_version p)
+  /\ ~ In file (file_names P)
+  /\ pj_migrations (step_revision P m f env) = pj_migrations P ++ [(file, p)].
+Proof.
+  intros P m f env file p H.
+  destruct (revision_wrote _ _ _ _ _ _ H) as [plans [Hl [Hv [Hpv [_ [_ Hnot]]]]]].
+  destruct (new_version_above _ _ Hl Hv) as [Hall Hnv].
+  rewrite Hpv. split; [exact Hnv|]. split; [exact Hall|]. split; [exact Hnot|].
+  unfold step_revision. rewrite H. cbn [project_after pj_migrations]. apply write_file_fresh. exact Hnot.
+Qed.
+
+(* every other outcome leaves the project as it is *)
+Theorem revision_never_overwrites : forall P m f env,
+  (forall n q, In (n, q) (pj_migrations P) -> In (n, q) (pj_migrations (step_revision P m f env)))
+  /\ (forall o, cmd_revision P m f env = Ok o -> (forall file p, o <> RevWrote file p) -> step_revision P m f env = P)
+  /\ (forall e, cmd_revision P m f env = Err e -> step_revision P m f env = P).
+Proof.
+  intros P m f env. unfold step_revision.
+  destruct (cmd_revision P m f env) as [o|e] eqn:H.
+  - split.
+    + destruct o; cbn [project_after]; try (intros n q Hin; exact Hin).
+      intros n q Hin. cbn [pj_migrations].
+      destruct (revision_append_only _ _ _ _ _ _ H) as [_ [_ [_ Happ]]].
+      unfold step_revision in Happ. rewrite H in Happ. cbn [project_after pj_migrations] in Happ.
+      rewrite Happ. apply in_or_app. left. exact Hin.
+    + split; [|intros e He; discriminate He].
+      intros o' Ho Hne. inversion Ho; subst o'. destruct o; try reflexivity. exfalso. exact (Hne _ _ eq_refl).
+  - split; [intros n q Hin; exact Hin|]. split; [intros o Ho; discriminate Ho|reflexivity].
+Qed.
+
+(* ------------------------------------------------------------------ default pattern: the file-exists refusal never fires *)
+(* every stored file carries the name the tool gives to its (version, comment) under the default pattern *)
+Definition tool_named (P : project) : Prop :=
+  forall n q, In (n, q) (pj_migrations P) ->
+    exists fmt, n = migration_filename (p_version q) (p_comment q) fmt default_pattern.
+
+Theorem default_pattern_never_refused : forall P m f env,
+  cf_pattern (pj_config P) = default_pattern ->
+  tool_named P ->
+  cmd_revision P m f env <> Ok RevRefusedExists.
+Proof.
+  intros P m f env Hpat Hnamed H.
+  destruct (revision_named _ _ _ _ _ H (or_intror eq_refl)) as [plans [name [Hl [Hv [Hn [Hex _]]]]]].
+  specialize (Hex eq_refl).
+  destruct (new_version_above _ _ Hl Hv) as [Hall _].
+  unfold file_names in Hex. apply in_map_iff in Hex. destruct Hex as [[n q] [Hnq Hin]]. cbn [fst] in Hnq. subst n.
+  destruct (Hnamed _ _ Hin) as [fmt Hq].
+  assert (Hvq : In (p_version q) (versions P)).
+  { unfold versions. apply in_map_iff. exists (name, q). split; [reflexivity|exact Hin]. }
+  specialize (Hall _ Hvq).
+  rewrite Hpat in Hn. rewrite Hn in Hq.
+  apply filename_fresh in Hq; [exact Hq|]. lia.
+Qed.
+
+(* ------------------------------------------------------------------ the former overwrite witnesses are refused now *)
+Definition cfg_pattern (pat : string) : config := mkConfig "models" "migrations" FJson FJson pat "src/models" "".
+Definition kcol (n : string) : column_def := mkCol n (TSimple Integer) false None None (Some (PKBool true)) None None None.
+Definition ncol (n : string) : column_def := mkCol n (TSimple Text) true None None None None None None.
+Definition env0 : rev_env := mkEnv false "uuid" "now".
+
+(* a pattern without a version placeholder and the same comment twice *)
+Definition P_same_name : project :=
+  mkProject (cfg_pattern "%m") [("user.json", mkTable "user" None [kcol "id"; ncol "email"] [])]
+            [("same.vespertide.json", mkPlan "id-1" (Some "same") None 1 [CreateTable "user" [kcol "id"] []])].
+
+Theorem filename_pattern_refused :
+  cmd_revision P_same_name "same" [] env0 = Ok RevRefusedExists
+  /\ step_revision P_same_name "same" [] env0 = P_same_name
+  /\ exists p, cmd_revision P_same_name "other" [] env0 = Ok (RevWrote "other.vespertide.json" p) /\ p_version p = 2.
+Proof. split; [vm_compute; reflexivity|]. split; [vm_compute; reflexivity|]. eexists. split; vm_compute; reflexivity. Qed.
+
+(* the u32 corner: at version 4294967295 there is no greater version to hand out *)
+Definition P_saturated : project :=
+  mkProject default_config [("user.json", mkTable "user" None [kcol "id"; ncol "email"] [])]
+            [("4294967295_big.vespertide.json", mkPlan "id-1" (Some "big") None 4294967295 [CreateTable "user" [kcol "id"] []])].
+
+Theorem revision_saturation_refused :
+  max_version P_saturated = u32_max
+  /\ cmd_revision P_saturated "big" [] env0 = Ok RevRefusedVersion
+  /\ cmd_revision P_saturated "other" [] env0 = Ok RevRefusedVersion
+  /\ step_revision P_saturated "big" [] env0 = P_saturated.
+Proof. repeat split; vm_compute; reflexivity. Qed.
+
+(* since fixes 446c8b4 and 06565a6, for every project, message, --fill-with list and environment: what revision writes
+   passes the very validation the loader applies, and lacks no fill value *)
+Theorem revision_output_loadable : forall P m f env file p,
+  cmd_revision P m f env = Ok (RevWrote file p) ->
+  validate_migration_plan p = Ok tt
+  /\ (forall a, In a (p_actions p) -> unfilled a = false).
+Proof.
+  intros P m f env file p H.
+  destruct (revision_named _ _ _ _ _ H (or_introl (ex_intro _ file (ex_intro _ p eq_refl)))) as [plans [name [_ [_ [_ [_ Hw]]]]]].
+  destruct (Hw file p eq_refl) as [_ [_ [_ [_ [Hv Hu]]]]]. split; assumption.
+Qed.
+
+(* the new refusal only ever concerns an enum value (a --fill-with value or an enum without labels): a missing fill
+   value never gets that far; it is refused before anything is written and leaves the project as it is *)
+Theorem revision_refuses_invalid_plan : forall P m f env e,
+  cmd_revision P m f env = Ok (RevRefusedInvalid e) ->
+  (exists t c x, e = VInvalidEnumDefault t c x)
+  /\ step_revision P m f env = P.
+Proof.
+  intros P m f env e H. split.
+  - destruct (revision_reaches_finish _ _ _ _ _ H (or_intror (or_intror (ex_intro _ e eq_refl)))) as [plans [baseline [a2 [_ [_ [Ho Hu]]]]]].
+    unfold revision_finish in Ho. unfold validate_migration_plan in Ho. cbn [p_actions] in Ho.
+    destruct (validate_plan_cases _ Hu) as [Hok|[_ [t [c [x Herr]]]]].
+    + rewrite Hok in Ho. destruct (mem_str _ (file_names P)); discriminate Ho.
+    + rewrite Herr in Ho. inversion Ho; subst e. eauto.
+  - unfold step_revision. rewrite H. reflexivity.
 Qed.
 
 (* and then every command keeps working on the extended history *)
@@ -533,11 +534,11 @@ Qed.
 
 Theorem revision_keeps_history_loadable : forall P m f env file p,
   cmd_revision P m f env = Ok (RevWrote file p) ->
-  validate_migration_plan p = Ok tt ->
   validate_files (pj_migrations (step_revision P m f env)) = Ok tt
   /\ exists plans, load_migrations (step_revision P m f env) = Ok plans.
 Proof.
-  intros P m f env file p H Hp.
+  intros P m f env file p H.
+  destruct (revision_output_loadable _ _ _ _ _ _ H) as [Hp _].
   destruct (revision_wrote _ _ _ _ _ _ H) as [plans [Hl _]].
   assert (Hv : validate_files (pj_migrations P) = Ok tt).
   { unfold load_migrations in Hl. destruct (validate_files (pj_migrations P)) as [[]|e]; [reflexivity|discriminate Hl]. }
@@ -553,20 +554,16 @@ Definition P_defaulted : project :=
   mkProject default_config [("user.json", mkTable "user" None [kcol "id"; dcol false] [])]
             [("0001_init.vespertide.json", mkPlan "id-1" (Some "init") None 1 [CreateTable "user" [kcol "id"; dcol true] []])].
 
-(* (R) what remains: a fill value for a new enum column is written unchecked *)
 Definition ecol : column_def :=
   mkCol "st" (TEnum "st" (EVString ["a"; "b"])) false None None None None None None.
 Definition P_enum : project :=
   mkProject default_config [("user.json", mkTable "user" None [kcol "id"; ecol] [])]
             [("0001_init.vespertide.json", mkPlan "id-1" (Some "init") None 1 [CreateTable "user" [kcol "id"] []])].
 
-Theorem revision_enum_fill_unchecked_refuted :
-  exists P m f env file p,
-    cmd_revision P m f env = Ok (RevWrote file p)
-    /\ p_actions p = [AddColumn "user" ecol (Some "zzz")]
-    /\ validate_migration_plan p = Err (VInvalidEnumDefault "user" "st" "zzz")
-    /\ cmd_diff (step_revision P m f env) = Err (ELoadMigration file (VInvalidEnumDefault "user" "st" "zzz")).
-Proof.
-  exists P_enum, "second", ["user.st=zzz"], env0. do 2 eexists.
-  split; [vm_compute; reflexivity|]. split; [reflexivity|]. split; vm_compute; reflexivity.
-Qed.
+(* the former witness of the unchecked enum fill value: refused now, nothing written *)
+Theorem revision_enum_fill_refused :
+  cmd_revision P_enum "second" ["user.st=zzz"] env0 = Ok (RevRefusedInvalid (VInvalidEnumDefault "user" "st" "zzz"))
+  /\ step_revision P_enum "second" ["user.st=zzz"] env0 = P_enum
+  /\ exists p, cmd_revision P_enum "second" ["user.st='b'"] env0 = Ok (RevWrote "0002_second.vespertide.json" p)
+               /\ p_actions p = [AddColumn "user" ecol (Some "'b'")].
+Proof. split; [vm_compute; reflexivity|]. split; [vm_compute; reflexivity|]. eexists. split; vm_compute; reflexivity. Qed.
